@@ -157,6 +157,9 @@ class CircuitGraphBranch(GraphBranch[OperationGraphNode]):
             warnings.warn(f"Expected operation relation ({node.operation.relation_link.reference_node}) is not present in circuit.")
             # NOTE: this implementation should be tested.
             # Adding operation and resetting its relation link can have unintended consequences.
+            # Start time of operation (and everything related to it) changes, clear memoized start times
+            RelationLink.get_start_time.cache_clear()
+            MultiRelationLink.get_start_time.cache_clear()
             if first_in_channel:
                 node.operation.relation_link = RelationLink.no_relation()
                 graph.append_pointer_to(graph.root_node, node)
@@ -237,6 +240,9 @@ class CircuitCompositeOperation(ICircuitCompositeOperation):
             graph=self._circuit_graph,
             operation=operation,
         )
+        # Duration of self (and start time of everything related to self) changed, clear memoized start times
+        RelationLink.get_start_time.cache_clear()
+        MultiRelationLink.get_start_time.cache_clear()
         return self
 
     def copy(self, relation_transfer_lookup: Optional[Dict[ICircuitOperation, ICircuitOperation]] = None) -> 'CircuitCompositeOperation':
@@ -301,6 +307,8 @@ class CircuitCompositeOperation(ICircuitCompositeOperation):
                 operation=operation,
             )
         self._circuit_graph = flatten_circuit_graph
+        RelationLink.get_start_time.cache_clear()
+        MultiRelationLink.get_start_time.cache_clear()
         return self
     # endregion
 
